@@ -116,14 +116,14 @@ func mountScratchTmpfs(r *vf.Run) func() {
 	self, err1 := os.Readlink("/proc/self/ns/mnt")
 	init1, err2 := os.Readlink(fmt.Sprintf("/proc/%d/ns/mnt", os.Getppid()))
 	if err1 != nil || err2 != nil || self == init1 || os.Geteuid() != 0 {
-		r.Set("scratch_on_tmpfs", false)
+		r.Set("scratch_on_tmpfs", fmt.Sprintf("no: not in a private mount namespace (self=%s parent=%s %v %v)", self, init1, err1, err2))
 		return func() {}
 	}
 	if err := syscall.Mount("tmpfs", r.Scratch, "tmpfs", 0, "size=6g,mode=0755"); err != nil {
-		r.Set("scratch_on_tmpfs", false)
+		r.Set("scratch_on_tmpfs", "no: mount failed: "+err.Error())
 		return func() {}
 	}
-	r.Set("scratch_on_tmpfs", true)
+	r.Set("scratch_on_tmpfs", "yes")
 	return func() { _ = syscall.Unmount(r.Scratch, syscall.MNT_DETACH) }
 }
 
@@ -207,7 +207,7 @@ func runDirect(r *vf.Run) {
 // current access is exact, and every racing access is the current one in some report, so
 // the key is built from the current access only:
 //
-//	race:<read|write|map-write|...>@<innermost repo function>[<-<innermost nativeconverter function>]
+//	race:<map|mem>@<innermost repo function>[<-<innermost nativeconverter function>]
 //
 // A report counts against C19 iff one of its two stacks runs through nativeconverter/.
 func accountRaces(r *vf.Run, reps []vf.RaceReport) {
@@ -224,7 +224,7 @@ func accountRaces(r *vf.Run, reps []vf.RaceReport) {
 		}
 		if !in(cur) && !in(prev) {
 			a, b := rep.InnermostFrames()
-			r.Distinct("unattributed_races", a+"|"+b)
+			r.Distinct("c19_unattributed_races", a+"|"+b)
 			continue
 		}
 		// a race whose current access is in the harness itself would be my bug
@@ -256,7 +256,7 @@ func accountRaces(r *vf.Run, reps []vf.RaceReport) {
 		}
 		r.Violate(key, "data race ("+acc+" in "+inner+") on state shared by the concurrent layer conversions of one converter instance",
 			map[string]any{"report": rep.Text})
-		r.Distinct("attributed_races", key)
+		r.Distinct("c19_attributed_races", key)
 	}
 }
 
@@ -293,16 +293,11 @@ func accessKind(text string, st []string) string {
 	case strings.HasPrefix(first, "Atomic"):
 		kind = "atomic"
 	}
-	if len(st) > 0 && strings.HasPrefix(st[0], "runtime.map") {
-		if strings.Contains(st[0], "assign") || strings.Contains(st[0], "delete") {
-			return "map-write"
-		}
-		return "map-read"
+	_ = kind
+	if len(st) > 0 && (strings.HasPrefix(st[0], "runtime.map") || strings.HasPrefix(st[0], "internal/runtime/maps")) {
+		return "map"
 	}
-	if len(st) > 0 && (st[0] == "runtime.growslice" || st[0] == "runtime.slicecopy" || st[0] == "runtime.memmove") {
-		return kind + "-slice"
-	}
-	return kind
+	return "mem"
 }
 
 // runBatches runs cases [from,n) of a stage in child processes of at most `batch` cases.
@@ -352,8 +347,7 @@ func runBatches(r *vf.Run, stage string, from, n, batch int, race bool) {
 		if class == "" {
 			r.Inconclusive(fmt.Sprintf("child stage %s died in a case without a recognisable crash report (exit %d %s)", stage, ex.ExitCode, ex.Signal))
 		} else {
-			scen := "concurrent-layers:" + c.Kind
-			r.Violate(class+"@"+site+":"+scen,
+			r.Violate(class+"@"+site+":concurrent-layers",
 				"the converting process crashed ("+head+") while one "+c.Kind+" converter instance converted the layers of an image concurrently (converter.DefaultIndexConvertFunc)",
 				map[string]any{"stage": stage, "case": c, "descriptor": c.desc(), "crash": head,
 					"note": "process-fatal: raised in a goroutine of containerd's errgroup running the repo's layer ConvertFunc", "output_tail": tail(ex.Tail, 3000)})
